@@ -264,6 +264,36 @@ fn run_rawcopy(src: Vec<u8>, chunk: usize, k: Option<u64>) -> (String, u64, Opti
     match r { Ok((s, l)) => (s, calls.get(), l), Err(_) => ("panic".into(), calls.get(), None) }
 }
 
+/// The streaming reader under faults: entries are read partly (`consume` bytes each) and dropped, so the drain on
+/// drop runs into the fault as well; neither a read nor the drop may panic.
+fn run_streaming(bytes: Vec<u8>, consume: usize, k: Option<u64>) -> (String, u64, bool) {
+    let io = FaultIo::new(bytes, k);
+    let calls = io.calls.clone();
+    let r = catch(std::panic::AssertUnwindSafe(move || {
+        let mut io = io;
+        let mut s = String::new();
+        let mut any_err = false;
+        for i in 0..64 {
+            match zip::read::read_zipfile_from_stream(&mut io) {
+                Ok(None) => { s += " end"; break; }
+                Err(e) => { any_err = true; s += &format!(" {i}={}", super::read::cls_z(&e)); break; }
+                Ok(Some(mut f)) => {
+                    let mut buf = vec![0u8; consume];
+                    let mut got = 0usize;
+                    let mut res = "ok".to_string();
+                    while got < consume {
+                        match f.read(&mut buf[got..]) { Ok(0) => break, Ok(c) => got += c, Err(e) => { any_err = true; res = super::read::cls_io(&e); break; } }
+                    }
+                    s += &format!(" {i}={res}:{}:{}", crc32fast::hash(&buf[..got]), got);
+                    // `f` is dropped here: the rest of the entry is drained from the faulty stream
+                }
+            }
+        }
+        (s, any_err)
+    }));
+    match r { Ok((s, e)) => (s, calls.get(), e), Err(_) => ("panic".into(), calls.get(), true) }
+}
+
 fn listing(bytes: &[u8]) -> Option<String> {
     let mut a = zip::ZipArchive::new(Cursor::new(bytes.to_vec())).ok()?;
     let mut s = format!("n={} c={}", a.len(), hex(a.comment()));
@@ -304,6 +334,15 @@ impl Stream for Fault {
                 let (_, n) = run_read(bytes.clone(), None);
                 g.push("read.free", format!("fault.read bytes={} k=none", hex(&bytes)));
                 for k in 0..n { g.push("read.k", format!("fault.read bytes={} k={k}", hex(&bytes))); }
+            } else if i % 8 == 1 {
+                // streaming reader, partial consumption, drain on drop (oracle only)
+                let calls = write_scenario(&mut r, None);
+                let mut c2 = calls.clone(); if c2.last().unwrap() != "fin" { let n = c2.len() - 1; c2[n] = "fin".into(); }
+                let bytes = super::write::run_calls(&c2, &[]).fin.unwrap_or_default();
+                let consume = *r.pick(&[0usize, 1, 7, 1000]);
+                let (_, n, _) = run_streaming(bytes.clone(), consume, None);
+                g.push("stream.free", format!("fault.stream bytes={} consume={consume} k=none", hex(&bytes)));
+                for k in 0..n { g.push("stream.k", format!("fault.stream bytes={} consume={consume} k={k}", hex(&bytes))); }
             } else if i % 8 == 7 {
                 // raw copy with the fault on the source reader (oracle only)
                 let src = {
@@ -359,7 +398,7 @@ impl Stream for Fault {
                 let (s, n) = run_read(get_hex(&a, "bytes").unwrap_or_default(), k);
                 format!("{s} ncalls={n}")
             }
-            "fault.enc" | "fault.writec" | "fault.rawcopy" => "oracle-only".into(),
+            "fault.enc" | "fault.writec" | "fault.rawcopy" | "fault.stream" => "oracle-only".into(),
             "fault.write" => {
                 let calls: Vec<String> = a.get("calls").map(|c| c.split(';').map(|s| s.to_string()).collect()).unwrap_or_default();
                 if calls.is_empty() { return "bad-op".into(); }
@@ -380,6 +419,17 @@ impl Stream for Fault {
         }
         let (op, a) = parse_line(line);
         let k = k_of(&a);
+        if op == "fault.stream" {
+            let bytes = get_hex(&a, "bytes").unwrap_or_default();
+            let consume = get_u64(&a, "consume").unwrap_or(0) as usize;
+            let (res, _, any_err) = run_streaming(bytes.clone(), consume, k);
+            if res.contains("panic") { f.push(OracleFailure { what: format!("panic under an injected I/O fault in the streaming reader (read or drain on drop): k={k:?} consume={consume}") }); return f; }
+            if k.is_some() && !any_err {
+                let (free, _, _) = run_streaming(bytes, consume, None);
+                if res != free { f.push(OracleFailure { what: format!("streaming reader: every call succeeded under the fault but the result differs from the fault-free run: `{res}` vs `{free}`") }); }
+            }
+            return f;
+        }
         if op == "fault.rawcopy" {
             let src = get_hex(&a, "src").unwrap_or_default();
             let chunk = get_u64(&a, "chunk").unwrap_or(7) as usize;
